@@ -33,10 +33,12 @@ type World struct {
 	Prog  *ssa.Program
 	SPkg  *ssa.Package
 
-	Funcs   []*ssa.Function          // every source function of the comet package (incl. closures)
-	byName  map[string]*ssa.Function // RelString name -> function
-	astDecl map[string]*ast.FuncDecl // RelString name -> declaration
-	files   int
+	Funcs  []*ssa.Function          // every source function of the comet package (incl. closures)
+	byName map[string]*ssa.Function // RelString name -> function
+	// RoleNotes lists the unexported helpers found under another name than the pinned tree's (roles.go)
+	RoleNotes []string
+	astDecl   map[string]*ast.FuncDecl // RelString name -> declaration
+	files     int
 
 	cg *callgraph.Graph // lazily built VTA graph
 }
@@ -45,6 +47,47 @@ type World struct {
 // Any parse/type error, a wrong package count or a file-count mismatch is fatal:
 // a static tool sees only what was parsed.
 func Load(repo, tags string) (*World, error) {
+	w, err := loadWith(repo, tags, nil)
+	if err != nil || os.Getenv("COMETLINT_NO_NORMALIZE") != "" || len(funcInventory) == 0 {
+		return w, err
+	}
+	// inlining normal form (normalize.go): helpers unknown to the pinned tree and not recognised as renamed ones
+	renamed := map[string]bool{}
+	for fn := range fnAlias {
+		renamed[fn.RelString(w.Types)] = true
+	}
+	known := func(key string) bool { _, ok := funcInventory[key]; return ok || renamed[key] }
+	overlay, notes, nerr := normalizeHelpers(repo, tags, os.Getenv("PATH"), known)
+	if nerr != nil || len(overlay) == 0 {
+		if nerr != nil {
+			w.RoleNotes = append(w.RoleNotes, "normalisation skipped: "+nerr.Error())
+		}
+		return w, nil
+	}
+	for k := range fnAlias {
+		delete(fnAlias, k)
+	}
+	for k := range fieldAlias {
+		delete(fieldAlias, k)
+	}
+	for k := range kindCacheReset {
+		kindCacheReset[k]()
+	}
+	w2, err := loadWith(repo, tags, overlay)
+	if err != nil {
+		// the overlay must never make a loadable tree unloadable: fall back to the files as they are
+		w.RoleNotes = append(w.RoleNotes, "normalisation discarded: "+err.Error())
+		return loadWith(repo, tags, nil)
+	}
+	w2.RoleNotes = append(w2.RoleNotes, notes...)
+	w2.RoleNotes = append(w2.RoleNotes, "positions below refer to the source after these inlinings")
+	return w2, nil
+}
+
+// kindCacheReset lets caches keyed by *World drop entries of a discarded load.
+var kindCacheReset = map[string]func(){}
+
+func loadWith(repo, tags string, overlay map[string][]byte) (*World, error) {
 	// go/packages shells out to the first `go` on PATH; the default /usr/bin/go (1.23.5) refuses
 	// comet's `go 1.24.2` under GOTOOLCHAIN=local, so the pre-installed 1.26.8 is put first.
 	path := os.Getenv("PATH")
@@ -56,6 +99,9 @@ func Load(repo, tags string) (*World, error) {
 		Mode: packages.LoadAllSyntax,
 		Dir:  repo,
 		Env:  append(os.Environ(), "PATH="+path, "GOWORK=off", "GOFLAGS=-mod=mod", "GOPROXY=off", "GOSUMDB=off", "GOTOOLCHAIN=local"),
+	}
+	if overlay != nil {
+		cfg.Overlay = overlay
 	}
 	if tags != "" {
 		cfg.BuildFlags = []string{"-tags=" + tags}
@@ -131,6 +177,7 @@ func Load(repo, tags string) (*World, error) {
 	if len(w.Funcs) < 300 {
 		return nil, fmt.Errorf("load: only %d source functions found (expected > 300)", len(w.Funcs))
 	}
+	w.RoleNotes = append(w.resolveRoles(), w.resolveFieldAliases()...)
 	return w, nil
 }
 
@@ -144,6 +191,17 @@ func (w *World) Decl(name string) *ast.FuncDecl { return w.astDecl[name] }
 func (w *World) Name(fn *ssa.Function) string {
 	if fn == nil {
 		return "<nil>"
+	}
+	if a, ok := fnAlias[fn]; ok {
+		return a
+	}
+	// closures of a renamed function keep the alias as prefix
+	top := fn
+	for top.Parent() != nil {
+		top = top.Parent()
+	}
+	if a, ok := fnAlias[top]; ok && top != fn {
+		return a + strings.TrimPrefix(fn.RelString(w.Types), top.RelString(w.Types))
 	}
 	return fn.RelString(w.Types)
 }
